@@ -47,4 +47,26 @@ PROPS["C18"] = {
     "env": {"TZ": "UTC"},
     "assumptions": ["process time zone UTC for this stream (zone dependence is C13's and C05's)"],
 }
+PROPS["C05"] = {
+    "engine": "codec",
+    "properties_file": "Properties/C05.v",
+    "model_files": ["Model/WireTypes.v", "Model/Codec.v", "Model/Interp.v", "Model/Cases18.v", "Model/Messages.v", "Model/Cases05.v", "Gen/Layouts.v"],
+    "gen_obligations": ["Proofs/LayoutProps.v:shipped_wf", "Proofs/LayoutProps.v:shipped_gate", "Proofs/LayoutProps.v:shipped_names_unique", "Proofs/LayoutProps.v:requests_ok", "Proofs/LayoutProps.v:responses_ok"],
+    "technique": "Coq: generic codec theorems instantiated on layouts/tables regenerated from messages/*.go each run (vm_compute obligations); differential run on all 65 message types under several time zones",
+    "level_text": "Seven theorems about the layouts and dispatch tables REGENERATED from /repo/messages on every run: every shipped struct is a "
+                  "well-formed layout, every table entry names a struct whose MsgType tag is its key (keys distinct), hence (instances of the "
+                  "generic C18 theorems) encode/decode round trip, injectivity and the frame property for all 65 types and all in-domain "
+                  "values, and the exact success/failure conditions of UnmarshalRequest/UnmarshalResponse for all byte strings. The model is "
+                  "compared with the real Marshal/Unmarshal/dispatchers on all 65 types, all 256 function codes, all lengths 0..128, with "
+                  "the process zone switched (time.Local) through 12 (quick) / all installed (thorough) IANA zones.",
+    "level_note": "Trusted: Coq kernel + vm_compute; translator tools/gen (prints struct declarations, tags, table literals); the model of the "
+                  "codec (as C18). Zone independence is tied by running the zone-free model against the implementation under each zone "
+                  "(civil date-times that do not exist in the zone are not generated - the property exempts them); the theorem-level "
+                  "zone argument is C13's (go_date_existing).",
+    "rule": "per zone: each message type with time-valued fields (all 65 under UTC) x value sets (every 4th from the edge pool) -> Marshal, "
+            "Unmarshal of the encoding, of a one-byte mutation and of the encoding with random bytes outside all fields; dispatchers on all "
+            "256 codes x 3 protocol ids, all lengths 0..128, real encodings and random payloads. Non-trivial = 64-byte buffer / any marshal; "
+            "distinct = distinct Coq case terms.",
+    "assumptions": ["time.Local is reassigned inside the harness process to switch zones"],
+}
 NOT_YET = {}
